@@ -791,6 +791,9 @@ func (r *Reader) Close() error {
 //
 // If more fine-grained control of when offsets are committed is required, it
 // is recommended to use FetchMessage with CommitMessages instead.
+//
+// If the message was fetched but committing it failed, the message is returned
+// together with the error.
 func (r *Reader) ReadMessage(ctx context.Context) (Message, error) {
 	m, err := r.FetchMessage(ctx)
 	if err != nil {
@@ -799,7 +802,11 @@ func (r *Reader) ReadMessage(ctx context.Context) (Message, error) {
 
 	if r.useConsumerGroup() {
 		if err := r.CommitMessages(ctx, m); err != nil {
-			return Message{}, fmt.Errorf("committing message: %w", err)
+			// The message has been taken off the reader and will not be
+			// returned again in this generation: hand it to the program along
+			// with the error instead of dropping it, otherwise the next commit
+			// would cover a message that was never delivered.
+			return m, fmt.Errorf("committing message: %w", err)
 		}
 	}
 
